@@ -1,0 +1,52 @@
+//go:build verif
+
+package bundle
+
+// Contracts for govc (comment-only; compiled only with -tags verif).
+
+// secSum(a, o, k) = a[o].Length + ... + a[o+k-1].Length as a mathematical
+// integer (no 64-bit wrap).
+//@ uf secSum([1]sectionOffset, int, int) mathint
+//@ axiom secSum_zero: forall a [1]sectionOffset, o int :: {secSum(a, o, 0)} secSum(a, o, 0) == 0
+//@ axiom secSum_step: forall a [1]sectionOffset, o int, k int :: {secSum(a, o, k), a[ix(o, k)]} k >= 0 ==> secSum(a, o, k + 1) == secSum(a, o, k) + a[ix(o, k)].Length
+//@ axiom secSum_nonneg: forall a [1]sectionOffset, o int, k int :: {secSum(a, o, k)} k >= 0 ==> secSum(a, o, k) >= 0
+
+//@ func FindSection
+//@   props C05 C10
+//@   returns (so, offset, found)
+//@   ensures found ==> exists k int :: 0 <= k && k < len(sos) && sos[k].Name == name && so == sos[k] && offset == uint64(secSum(arr(sos), off(sos), k)) && (forall j int :: 0 <= j && j < k ==> sos[j].Name != name)
+//@   ensures !found ==> forall j int :: 0 <= j && j < len(sos) ==> sos[j].Name != name
+//@   assigns nothing
+//@   loop 0:
+//@     invariant -1 <= rangeindex && rangeindex < len(sos) || len(sos) == 0
+//@     invariant offset == uint64(secSum(arr(sos), off(sos), rangeindex + 1))
+//@     invariant forall j int :: 0 <= j && j <= rangeindex ==> sos[j].Name != name
+//@     decreases len(sos) - rangeindex
+
+// makeRelativeToStream (both index parsers): an index entry (offset, length)
+// is accepted only if it lies inside the responses section, the sum being
+// taken without 64-bit wrap-around.
+//@ func parseIndexSection$1
+//@   props C05
+//@   returns (ro, rl, err)
+//@   ensures[no-wrap] err == nil ==> offset + length <= respso.Length
+//@   ensures err == nil ==> ro == uint64(*respSectionOffset + offset) && rl == length
+//@   ensures err != nil ==> ro == 0 && rl == 0
+//@   assigns nothing
+
+//@ func parseIndexSectionWithVariants$1
+//@   props C05
+//@   returns (ro, rl, err)
+//@   ensures[no-wrap] err == nil ==> offset + length <= respso.Length
+//@   ensures err == nil ==> ro == uint64(*respSectionOffset + offset) && rl == length
+//@   ensures err != nil ==> ro == 0 && rl == 0
+//@   assigns nothing
+
+//@ func parseIndexSection
+//@   props C05 C10
+//@   returns (reqs, err)
+//@   ensures[entries-in-responses] err == nil ==> exists k int :: 0 <= k && k < len(sos) && sos[k].Name == "responses" && (forall j int :: 0 <= j && j < k ==> sos[j].Name != "responses") && (forall i int :: 0 <= i && i < len(reqs) ==> uint64(reqs[i].Offset - uint64(sectionsStart + secSum(arr(sos), off(sos), k))) + reqs[i].Length <= sos[k].Length)
+//@   assigns nothing
+//@   loop 0:
+//@     invariant fresh(requests)
+//@     invariant forall x int :: 0 <= x && x < len(requests) ==> uint64(requests[x].Offset - respSectionOffset) + requests[x].Length <= respso.Length
